@@ -584,7 +584,8 @@ class BitString(base.SimpleAsn1Type):
     def asBinary(self):
         """Get |ASN.1| value as a text string of bits.
         """
-        binString = bin(self._value)[2:]
+        # significant bits only (zero has none)
+        binString = bin(self._value)[2:].lstrip('0')
         return '0' * (len(self._value) - len(binString)) + binString
 
     @classmethod
